@@ -439,7 +439,7 @@ class JavaHarness:
         self.text = text
         self.exclude = tuple(exclude)
         self.info = _Info(file, self.exclude)
-        self.dir = os.path.join(build.WORK, "java", name)
+        self.dir = os.path.join(build.WORK, "java", build._repo_tag(), name)
         self.pkg = "pvj.h_" + re.sub(r"\W", "_", name)
         self.src = os.path.join(self.dir, "src")
         self.pkgdir = os.path.join(self.src, *self.pkg.split("."))
